@@ -1,9 +1,12 @@
 #!/usr/bin/env python3
 """Regression over the kept seeded changes: apply each patch in an evaluation copy, run the quick
 checks that are recorded as catching it, and report any that no longer does.
-usage: seeded_regress.py <copy K> <shard i> <of n>"""
+usage: seeded_regress.py <copy K> <shard i> <of n> [--update]
+With --update the property's own quick check is run as well and meta.json's detection record is
+rewritten from what was observed in this run."""
 import json, glob, os, subprocess, sys
 K, i, n = sys.argv[1], int(sys.argv[2]), int(sys.argv[3])
+UPDATE = '--update' in sys.argv
 REPO, VERIF = f'/tmp/eval{K}/repo', f'/tmp/eval{K}/verif'
 def sh(cmd, cwd=None):
     p = subprocess.run(cmd, shell=True, cwd=cwd, stdout=subprocess.PIPE, stderr=subprocess.STDOUT, text=True)
@@ -14,6 +17,9 @@ for idx, d in enumerate(dirs):
     name = os.path.basename(d.rstrip('/'))
     meta = json.load(open(d + 'meta.json'))
     checks = [c for c in meta.get('detected_by', []) if not c.endswith('thorough')]
+    own = name.split('-')[0]
+    if UPDATE and own not in checks:
+        checks.append(own)
     if not checks:
         print(name, 'SKIP (not caught by a quick check: %s)' % meta.get('detected_by')); sys.stdout.flush(); continue
     sh(f'git -C {REPO} checkout -- .')
@@ -24,6 +30,14 @@ for idx, d in enumerate(dirs):
     for c in checks:
         rc, o = sh(f'./check {c} quick', cwd=VERIF)
         res[c] = rc
+        if UPDATE:
+            lines = [l for l in o.splitlines() if l.startswith('VIOLATION') or l.strip().startswith('oracle=')][:4]
+            tail = [l for l in o.splitlines() if l.startswith(c + ':')][-1:] 
+            meta.setdefault('detection', {})[c] = {'exit': rc, 'violation_lines': lines, 'tail': tail[0] if tail else ''}
     sh(f'git -C {REPO} checkout -- .')
     caught = [c for c, r in res.items() if r == 1]
+    if UPDATE:
+        thorough = [c for c in meta.get('detected_by', []) if c.endswith('thorough')]
+        meta['detected_by'] = caught + [t for t in thorough if t.split('-')[0] not in caught]
+        json.dump(meta, open(d + 'meta.json', 'w'), indent=1)
     print(name, 'OK' if caught else 'LOST', res); sys.stdout.flush()
